@@ -1,27 +1,39 @@
 """Registry entry for C20."""
 
 PROP = dict(
-    module="JadeModel.Props.C20", ns="Jade.C20",
+    module="JadeModel.Props.C20Agg", ns="Jade.C20",
     required=["consolidate_perm", "consolidate_names", "consolidate_sorted", "consolidate_stable",
               "consolidate_idempotent", "construct_first", "construct_second", "construct_second_empty",
               "stats_general", "stats_max", "stats_min", "stats_sum", "stats_count", "stats_mean",
               "stats_negative_max", "stats_huge_min", "stats_max_witness", "stats_ordered", "proc_ordered",
               "proc_max", "proc_min", "proc_sum", "proc_mean",
               "classify_partition", "classify_invalid", "classify_canceled_zero", "tally_correct", "tally_ok_iff",
-              "tally_sum", "byType_partition", "show_agrees"],
+              "tally_sum", "byType_partition", "show_agrees",
+              "aggregate_conservation", "aggregate_exactly_once", "aggregate_pending", "job_files_distinct",
+              "aggregate_drains", "resubmit_reconsolidates"],
     suites=["events", "stats", "tally"],
     level_text="Machine-checked Lean theorems for all multisets of events over any number of log files (payload type a "
-               "parameter), all sample sequences and all result sets (unbounded), over a model whose sort/group keys, "
-               "statistics if/elif chains, initial values, divisions, Result.is_* predicates, classification chains and "
-               "missing-jobs guard are regenerated from the source on every run; the hand-written skeletons are tied by "
-               "differential testing on the real log_event/EventsSummary, ResourceMonitorAggregator, "
+               "parameter), all histories of submitter / node-runner / job processes, aggregations, killed and requeued "
+               "batches and re-run jobs (unbounded, by induction over the history), "
+               "all sample sequences and all result sets (unbounded), over a model whose sort/group keys, "
+               "statistics if/elif chains, initial values, divisions, Result.is_* predicates, classification chains, "
+               "missing-jobs guard, and the open modes / continue / os.remove / file names of the event aggregation "
+               "(JobRunner._aggregate_events, cli/run.py, cli/run_jobs.py, the submitter commands) are regenerated from "
+               "the source on every run; the hand-written skeletons are tied by "
+               "differential testing on the real log_event/EventsSummary, JobRunner._aggregate_events on real "
+               "JobRunner objects over multi-batch histories, ResourceMonitorAggregator, "
                "JobSubmitter._handle_completion and ResultsSummary.",
-    level_note="Trusted: Lean kernel (+propext, Classical.choice, Quot.sound), tools/extract.py + tools/sites/reports.py, the "
+    level_note="Trusted: Lean kernel (+propext, Classical.choice, Quot.sound), tools/extract.py + tools/sites/reports.py + "
+               "tools/sites/reports_agg.py, the "
                "events/stats/tally correspondence suites. Outside the model: JSON encoding of event payloads (round trip "
                "checked by the events suite on generated nested payloads), the Parquet tables of resource-stat events "
                "(only their names are modelled), float rounding of sums and of the mean (dyadic samples in the tie), the "
-               "order in which glob/iterdir list files (observed, passed to the model), job-level events.log files "
-               "before JobRunner._aggregate_events copies them into the node's log.",
+               "order in which glob/iterdir list files (observed, passed to the model). The per-job events.log files "
+               "and their aggregation into the node's log ARE in the model (Model/ReportsAgg.lean); job processes run "
+               "through the real jade.cli.run.run with a stub extension, the run-jobs and submitter processes are "
+               "emulated by the events suite (their setup_event_logging calls are read by the translator only: file "
+               "name and open mode), and an aggregation is atomic (a runner killed between the copy and the os.remove "
+               "of one job file is not modelled).",
     assumptions=[
         "timestamps are Python str (str(datetime.now()) or the stored string) and are compared as strings by code point, "
         "which is chronological order for the fixed-width format every JADE process writes",
@@ -33,10 +45,16 @@ PROP = dict(
         "result rows are for distinct configured jobs (C08) and canceled rows carry a non-zero return code (C04); a "
         "canceled row with code 0 makes _build_results raise AssertionError (classify_canceled_zero)",
     ],
-    explanation="Theorems about Model/Reports.lean whose keys, chains, initial values and predicates (Gen/Reports.lean) "
-                "are regenerated from events.py, resource_monitor.py, result.py, job_submitter.py and enums.py on every "
-                "run; the consolidation/save/load skeleton, the per-call statistics loop and the counting loops are tied "
+    explanation="Theorems about Model/Reports.lean and Model/ReportsAgg.lean whose keys, chains, initial values, "
+                "predicates, open modes and file names (Gen/Reports.lean, Gen/ReportsAgg.lean) "
+                "are regenerated from events.py, resource_monitor.py, result.py, job_submitter.py, enums.py, "
+                "job_runner.py, cli/run.py, cli/run_jobs.py and the submitter commands on every "
+                "run; the consolidation/save/load skeleton, the aggregation loop over histories (batches killed before "
+                "they aggregate, requeued under the same batch id, jobs re-run in later batches, resubmission emptying "
+                "events/), the per-call statistics loop and the counting loops are tied "
                 "by the `events`, `stats` and `tally` correspondence suites, whose direct oracles (multiset equality per "
-                "name incl. payload, sortedness, stability, idempotence; min/max/mean against Python's min/max/sum/len on "
-                "exact fractions; tallies against an independent classification) state the property on the real output.",
+                "name incl. payload between what every process wrote and the summary - each event as often as written, "
+                "pending per-job files excluded -, sortedness, stability, idempotence; min/max/mean against Python's "
+                "min/max/sum/len on exact fractions; tallies against an independent classification) state the property "
+                "on the real output.",
 )
